@@ -16,7 +16,9 @@ import (
 
 	"github.com/btcsuite/btcd/btcec/v2"
 	"github.com/btcsuite/btcd/btcutil/v2"
+	"github.com/btcsuite/btcd/chainhash/v2"
 	"github.com/btcsuite/btcd/wire/v2"
+	"github.com/lightningnetwork/lnd/fn/v2"
 )
 
 // c10BE is the n-byte big-endian representation of v.
@@ -580,8 +582,18 @@ func c10MsgTable(i int) c10Msg {
 // c10MsgBody builds the symbolic body for message i: fixed part plus e
 // extension bytes (and for Shutdown an address of a <= 4 bytes, for
 // ChannelReestablish also the short and truncated forms).
-func c10MsgBody(i int, spec c10Msg) (body []byte, tlvOff int) {
-	e := vChoice("extra", C10_EXTRA+1)
+func c10MsgBody(i int, spec c10Msg, emax int) (body []byte, tlvOff int) {
+	// e = number of extension bytes, 0..emax. Bands exist so that the long
+	// extensions can run as separate processes: band 0: e = 0..emax-3,
+	// band k = 1..3: e = emax-3+k.
+	var e int
+	if emax < 3 {
+		e = vChoice("extra", emax+1)
+	} else if band := vChoice("eband", 4); band == 0 {
+		e = vChoice("extra", emax-2)
+	} else {
+		e = emax - 3 + band
+	}
 	n := spec.fixed + e
 	tlvOff = spec.fixed
 	switch i {
@@ -597,7 +609,10 @@ func c10MsgBody(i int, spec c10Msg) (body []byte, tlvOff int) {
 			vAssume(e == 0)
 		}
 	case 4:
-		a := vChoice("alen", 5)
+		a := []int{1, 0, 4}[vChoice("alen", 3)]
+		if a != 1 && e > 2 {
+			vAssume(false) // address lengths 0 and 4 are explored with <= 2 extension bytes
+		}
 		n += a
 		tlvOff += a
 	}
@@ -612,10 +627,12 @@ func c10MsgBody(i int, spec c10Msg) (body []byte, tlvOff int) {
 	if i == 4 {
 		// Shutdown: the declared address length decides where the TLV part
 		// starts; declared lengths > 34 are refused by the decoder.
-		decl := int(c10FromBE(body[32:34]))
-		if decl <= n-34 {
-			tlvOff = 34 + decl
-		} else {
+		// Explored domain: the declared length equals the address length a,
+		// or is one more than the bytes present (short read), or is > 34.
+		decl := c10FromBE(body[32:34])
+		a := tlvOff - 34
+		vAssume(decl == uint64(a) || decl == uint64(n-34+1) || decl > 34)
+		if decl != uint64(a) {
 			tlvOff = n
 		}
 	}
@@ -628,11 +645,21 @@ func c10MsgBody(i int, spec c10Msg) (body []byte, tlvOff int) {
 // encoding that again yields the same bytes (canonical fixpoint). Messages
 // whose extension is a TLV stream are accepted only if the stream is canonical
 // per the BOLT-1 reference.
-func VerifC10MsgBytes() {
+func VerifC10MsgBytes() { c10MsgBytes(c10ExtraQuick) }
+
+// VerifC10MsgBytesDeep: the same with up to c10ExtraDeep extension bytes.
+func VerifC10MsgBytesDeep() { c10MsgBytes(c10ExtraDeep) }
+
+const (
+	c10ExtraQuick = 5
+	c10ExtraDeep  = 8
+)
+
+func c10MsgBytes(emax int) {
 	c10Config()
 	i := vChoice("msg", c10NumMsgs)
 	spec := c10MsgTable(i)
-	body, tlvOff := c10MsgBody(i, spec)
+	body, tlvOff := c10MsgBody(i, spec, emax)
 	tlvOK, recs := true, []c10TLVRec(nil)
 	if spec.tlv && i != 3 {
 		tlvOK, recs = c10RefTLV(body[tlvOff:])
@@ -680,7 +707,7 @@ func VerifC10MsgUnknownKept() {
 	which := vChoice("msg", 3)
 	i := []int{2, 3, 5}[which]
 	spec := c10MsgTable(i)
-	body, tlvOff := c10MsgBody(i, spec)
+	body, tlvOff := c10MsgBody(i, spec, 3)
 	vAssume(len(body) >= spec.fixed)
 	_, recs := c10RefTLV(body[tlvOff:])
 	in := append([]byte{}, body...)
@@ -695,7 +722,368 @@ func VerifC10MsgUnknownKept() {
 	vAssert(m.Encode(&w1, 0) == nil, "a decoded message re-encodes")
 	m2 := spec.mk()
 	vAssert(m2.Decode(bytes.NewReader(w1.Bytes()), 0) == nil, "the re-encoding decodes")
-	vAssert(bytes.Equal(extra0, spec.extra(m2)), "unknown TLV records survive decode -> encode -> decode")
+	kept := bytes.Equal(extra0, spec.extra(m2))
+	switch i {
+	case 2:
+		vAssert(kept, "RevokeAndAck: unknown TLV records survive decode -> encode -> decode")
+	case 3:
+		vAssert(kept, "ChannelReestablish: unknown TLV records survive decode -> encode -> decode")
+	default:
+		vAssert(kept, "ClosingSigned: unknown TLV records survive decode -> encode -> decode")
+	}
+}
+
+// ---------------------------------------------------------------- item 4, bytes -> value -> bytes
+
+// c10ElemWidth is the wire width of a fixed-width element kind; variable
+// (length-prefixed) kinds return 0, true.
+func c10ElemWidth(kind int) (int, bool) {
+	switch kind {
+	case 0, 11, 14, 15, 16, 17:
+		return 1, false
+	case 1, 12:
+		return 2, false
+	case 2:
+		return 4, false
+	case 3, 4, 5, 6:
+		return 8, false
+	case 7, 9:
+		return 32, false
+	case 8:
+		return 33, false
+	case 10:
+		return 64, false
+	case 23:
+		return 34, false
+	case 24:
+		return 3, false
+	}
+	return 0, true
+}
+
+// c10ElemRead reads one element of the kind from r and returns the error and
+// a function re-encoding the value read.
+func c10ElemRead(kind int, r io.Reader) (error, func(w *bytes.Buffer) error) {
+	switch kind {
+	case 0:
+		var g uint8
+		return ReadElement(r, &g), func(w *bytes.Buffer) error { return WriteElement(w, g) }
+	case 1:
+		var g uint16
+		return ReadElement(r, &g), func(w *bytes.Buffer) error { return WriteElement(w, g) }
+	case 2:
+		var g uint32
+		return ReadElement(r, &g), func(w *bytes.Buffer) error { return WriteElement(w, g) }
+	case 3:
+		var g uint64
+		return ReadElement(r, &g), func(w *bytes.Buffer) error { return WriteElement(w, g) }
+	case 4:
+		var g MilliSatoshi
+		return ReadElement(r, &g), func(w *bytes.Buffer) error { return WriteElement(w, g) }
+	case 5:
+		var g btcutil.Amount
+		return ReadElement(r, &g), func(w *bytes.Buffer) error { return WriteElement(w, g) }
+	case 6:
+		var g ShortChannelID
+		return ReadElement(r, &g), func(w *bytes.Buffer) error { return WriteElement(w, g) }
+	case 7:
+		var g ChannelID
+		return ReadElement(r, &g), func(w *bytes.Buffer) error { return WriteElement(w, g) }
+	case 8:
+		var g [33]byte
+		return ReadElement(r, &g), func(w *bytes.Buffer) error { return WriteElement(w, g) }
+	case 9:
+		g := make([]byte, 32)
+		return ReadElement(r, g), func(w *bytes.Buffer) error { return WriteElement(w, g) }
+	case 10:
+		var g Sig
+		return ReadElement(r, &g), func(w *bytes.Buffer) error { return WriteElement(w, g) }
+	case 11:
+		var g bool
+		return ReadElement(r, &g), func(w *bytes.Buffer) error { return WriteElement(w, g) }
+	case 12:
+		var g FailCode
+		return ReadElement(r, &g), func(w *bytes.Buffer) error { return WriteElement(w, g) }
+	case 13:
+		var g DeliveryAddress
+		return ReadElement(r, &g), func(w *bytes.Buffer) error { return WriteElement(w, g) }
+	case 14:
+		var g FundingFlag
+		return ReadElement(r, &g), func(w *bytes.Buffer) error { return WriteElement(w, g) }
+	case 15:
+		var g ChanUpdateMsgFlags
+		return ReadElement(r, &g), func(w *bytes.Buffer) error { return WriteElement(w, g) }
+	case 16:
+		var g ChanUpdateChanFlags
+		return ReadElement(r, &g), func(w *bytes.Buffer) error { return WriteElement(w, g) }
+	case 17:
+		var g QueryEncoding
+		return ReadElement(r, &g), func(w *bytes.Buffer) error { return WriteElement(w, g) }
+	case 18:
+		var g OpaqueReason
+		return ReadElement(r, &g), func(w *bytes.Buffer) error { return WriteElement(w, g) }
+	case 19:
+		var g ErrorData
+		return ReadElement(r, &g), func(w *bytes.Buffer) error { return WriteElement(w, g) }
+	case 20:
+		var g WarningData
+		return ReadElement(r, &g), func(w *bytes.Buffer) error { return WriteElement(w, g) }
+	case 21:
+		var g PingPayload
+		return ReadElement(r, &g), func(w *bytes.Buffer) error { return WriteElement(w, g) }
+	case 22:
+		var g PongPayload
+		return ReadElement(r, &g), func(w *bytes.Buffer) error { return WriteElement(w, g) }
+	case 23:
+		var g wire.OutPoint
+		return ReadElement(r, &g), func(w *bytes.Buffer) error { return WriteElement(w, g) }
+	case 24:
+		var g color.RGBA
+		return ReadElement(r, &g), func(w *bytes.Buffer) error { return WriteElement(w, g) }
+	}
+	var g PkScript
+	return ReadElement(r, &g), func(w *bytes.Buffer) error { return WriteElement(w, g) }
+}
+
+// VerifC10ElemBytes: ReadElement on an arbitrary reader content of each kind
+// never panics, accepts exactly when the field is completely present (and a
+// length prefix is within its bound), consumes exactly the field, and
+// WriteElement of the value read reproduces the consumed bytes (bool: the
+// canonical byte). Together with VerifC10ElemValue (WriteElement is the
+// injective big-endian encoding) this fixes the decoded value.
+func VerifC10ElemBytes() {
+	kind := vChoice("kind", c10NumElemKinds)
+	width, variable := c10ElemWidth(kind)
+	var n int
+	if variable {
+		n = vChoice("n", 8)
+	} else {
+		n = []int{0, width - 1, width, width + 1}[vChoice("nsel", 4)]
+	}
+	b := vBytes("b", n)
+	wantOK := n >= width
+	wantLen := width
+	if variable {
+		wantOK = false
+		switch {
+		case kind == 25: // PkScript: Bitcoin CompactSize length (canonical), at most 34
+			if n >= 1 && b[0] <= 34 && int(b[0]) <= n-1 {
+				wantOK, wantLen = true, 1+int(b[0])
+			}
+			// the longer CompactSize forms must encode >= 0xfd: never <= 34
+		case n >= 2:
+			decl := c10FromBE(b[:2])
+			// explored domain: declared length <= 8, or (DeliveryAddress) > 34
+			if kind == 13 {
+				vAssume(decl <= 8 || decl > 34)
+			} else {
+				vAssume(decl <= 8)
+			}
+			if decl <= uint64(n-2) {
+				wantOK, wantLen = true, 2+int(decl)
+			}
+		}
+	}
+	in := append([]byte{}, b...)
+	r := bytes.NewReader(in)
+	err, rewrite := c10ElemRead(kind, r)
+	vObserve("kind", kind)
+	vAssert((err == nil) == wantOK, "ReadElement accepts exactly when the whole field is present and within bounds")
+	if err != nil {
+		vReach("reject")
+		return
+	}
+	vReach("accept")
+	vAssert(n-r.Len() == wantLen, "ReadElement consumes exactly the field")
+	var w bytes.Buffer
+	vAssert(rewrite(&w) == nil, "a value read from the wire can be written")
+	want := append([]byte{}, b[:wantLen]...)
+	if kind == 11 && want[0] != 1 {
+		want[0] = 0 // bool: every byte other than 1 reads as false
+	}
+	vAssert(bytes.Equal(w.Bytes(), want), "WriteElement(ReadElement(b)) reproduces the consumed bytes")
+}
+
+// ---------------------------------------------------------------- item 5, value -> bytes -> value
+
+func c10Chan(name string) (c ChannelID) {
+	copy(c[:], vBytes(name, 32))
+	return c
+}
+
+func c10Arr32(name string) (a [32]byte) {
+	copy(a[:], vBytes(name, 32))
+	return a
+}
+
+// c10ExtraShape returns ExtraData that is either empty or one unknown record
+// with a one-byte type (not one of the avoided known types) and <= 1 value byte.
+func c10ExtraShape(avoid ...uint8) ExtraOpaqueData {
+	switch vChoice("xshape", 3) {
+	case 0:
+		return nil
+	case 1:
+		t := vU8("xtype")
+		vAssume(t < 0xfd)
+		for _, a := range avoid {
+			vAssume(t != a)
+		}
+		return ExtraOpaqueData{t, 0}
+	}
+	t := vU8("xtype")
+	vAssume(t < 0xfd)
+	for _, a := range avoid {
+		vAssume(t != a)
+	}
+	return ExtraOpaqueData{t, 1, vU8("xval")}
+}
+
+// c10CustomShape returns custom records that are absent or hold one record
+// with an arbitrary 64-bit type and <= 2 value bytes, its BOLT-1 encoding and
+// whether the type is in the custom range (>= 65536).
+func c10CustomShape() (CustomRecords, []byte, bool) {
+	sh := vChoice("cshape", 3)
+	if sh == 0 {
+		return nil, nil, true
+	}
+	k := vU64("ctype")
+	v := vBytes("cval", sh-1)
+	rec := c10Cat(c10RefBigSizeEnc(k), []byte{byte(len(v))}, v)
+	return CustomRecords{k: v}, rec, k >= 65536
+}
+
+func c10Nonce() (n Musig2Nonce) {
+	copy(n[:33], c10KeyBytes(0))
+	copy(n[33:], c10KeyBytes(1))
+	return n
+}
+
+// VerifC10MsgValue: for field values of each message type (all fixed fields
+// symbolic; public keys G / -G; optional records absent or present; extension
+// data and custom records of the small shapes above) Encode yields exactly the
+// BOLT layout, within 65535 bytes, and Decode yields an equal message with
+// extension data and custom records preserved. Custom record types below 65536
+// are refused by Encode.
+func VerifC10MsgValue() {
+	c10Config()
+	i := vChoice("msg", c10NumMsgs)
+	spec := c10MsgTable(i)
+	var (
+		m          Message
+		want       []byte
+		wellFormed = true
+	)
+	key := func() (*btcec.PublicKey, []byte) {
+		kb := c10KeyBytes(vChoice("key", 2))
+		pk, err := btcec.ParsePubKey(kb)
+		vAssert(err == nil, "harness key parses")
+		return pk, kb
+	}
+	switch i {
+	case 0:
+		x := &UpdateFee{ChanID: c10Chan("chan"), FeePerKw: vU32("feekw"), ExtraData: vBytes("x", vChoice("xlen", 4))}
+		m = x
+		want = c10Cat(x.ChanID[:], c10BE(uint64(x.FeePerKw), 4), x.ExtraData)
+	case 1:
+		cr, crb, ok := c10CustomShape()
+		x := &UpdateFulfillHTLC{ChanID: c10Chan("chan"), ID: vU64("id"), PaymentPreimage: c10Arr32("preimage"),
+			CustomRecords: cr, ExtraData: c10ExtraShape()}
+		m, wellFormed = x, ok
+		want = c10Cat(x.ChanID[:], c10BE(x.ID, 8), x.PaymentPreimage[:], x.ExtraData, crb)
+	case 2:
+		pk, kb := key()
+		x := &RevokeAndAck{ChanID: c10Chan("chan"), Revocation: c10Arr32("rev"), NextRevocationKey: pk}
+		want = c10Cat(x.ChanID[:], x.Revocation[:], kb)
+		if vChoice("nonce", 2) == 1 {
+			n := c10Nonce()
+			x.LocalNonce = SomeMusig2Nonce(n)
+			want = c10Cat(want, []byte{4, 66}, n[:])
+		}
+		if vChoice("nonces", 2) == 1 {
+			x.LocalNonces = SomeLocalNonces(LocalNoncesData{NoncesMap: map[chainhash.Hash]Musig2Nonce{}})
+			want = c10Cat(want, []byte{22, 0})
+		}
+		m = x
+	case 3:
+		x := &ChannelReestablish{ChanID: c10Chan("chan"), NextLocalCommitHeight: vU64("next"),
+			RemoteCommitTailHeight: vU64("tail"), LastRemoteCommitSecret: c10Arr32("secret")}
+		want = c10Cat(x.ChanID[:], c10BE(x.NextLocalCommitHeight, 8), c10BE(x.RemoteCommitTailHeight, 8))
+		if vChoice("dlp", 2) == 1 {
+			pk, kb := key()
+			x.LocalUnrevokedCommitPoint = pk
+			want = c10Cat(want, x.LastRemoteCommitSecret[:], kb)
+			if vChoice("nonce", 2) == 1 {
+				n := c10Nonce()
+				x.LocalNonce = SomeMusig2Nonce(n)
+				want = c10Cat(want, []byte{4, 66}, n[:])
+			}
+			if vChoice("dyn", 2) == 1 {
+				h := DynHeight(vU64("dynheight"))
+				x.DynHeight = fn.Some(h)
+				want = c10Cat(want, []byte{20, 8}, c10BE(uint64(h), 8))
+			}
+			if vChoice("nonces", 2) == 1 {
+				x.LocalNonces = SomeLocalNonces(LocalNoncesData{NoncesMap: map[chainhash.Hash]Musig2Nonce{}})
+				want = c10Cat(want, []byte{22, 0})
+			}
+		} else {
+			// without a commitment point the secret is not sent either
+			x.LastRemoteCommitSecret = [32]byte{}
+		}
+		m = x
+	case 4:
+		cr, crb, ok := c10CustomShape()
+		x := &Shutdown{ChannelID: c10Chan("chan"), Address: vBytes("addr", vChoice("alen", 5)),
+			CustomRecords: cr, ExtraData: c10ExtraShape(8)}
+		var nonceRec []byte
+		if vChoice("nonce", 2) == 1 {
+			n := c10Nonce()
+			x.ShutdownNonce = SomeShutdownNonce(n)
+			nonceRec = c10Cat([]byte{8, 66}, n[:])
+		}
+		m, wellFormed = x, ok
+		// records in type order: the extension record (one-byte type) sorts
+		// before or after record 8
+		var ext []byte
+		if len(x.ExtraData) > 0 && x.ExtraData[0] < 8 {
+			ext = c10Cat(x.ExtraData, nonceRec)
+		} else {
+			ext = c10Cat(nonceRec, x.ExtraData)
+		}
+		want = c10Cat(x.ChannelID[:], c10LenPrefixed(x.Address), ext, crb)
+	default:
+		x := &ClosingSigned{ChannelID: c10Chan("chan"), FeeSatoshis: btcutil.Amount(vI64("feesat"))}
+		copy(x.Signature.bytes[:], vBytes("sig", 64))
+		want = c10Cat(x.ChannelID[:], c10BE(uint64(x.FeeSatoshis), 8), x.Signature.bytes[:])
+		if vChoice("psig", 2) == 1 {
+			var sc btcec.ModNScalar
+			raw := c10BE(0x0102030405060708, 32)
+			sc.SetByteSlice(raw)
+			x.PartialSig = SomePartialSig(NewPartialSig(sc))
+			want = c10Cat(want, []byte{6, 32}, raw)
+		}
+		m = x
+	}
+	vObserve("msg", i)
+	extra0 := append([]byte{}, spec.extra(m)...)
+	var w bytes.Buffer
+	err := m.Encode(&w, 0)
+	vAssert((err == nil) == wellFormed, "Encode succeeds exactly on well-formed values (custom record types >= 65536)")
+	if err != nil {
+		vReach("refused")
+		return
+	}
+	vReach("encoded")
+	enc := append([]byte{}, w.Bytes()...)
+	vAssert(len(enc) <= 65535, "encoding fits the 65535-byte message bound")
+	vAssert(bytes.Equal(enc, want), "Encode produces the BOLT field layout followed by the TLV records in type order")
+	if spec.repacks {
+		extra0 = append([]byte{}, spec.extra(m)...) // Encode stores the packed known records in ExtraData
+	}
+	m2 := spec.mk()
+	vAssert(m2.Decode(bytes.NewReader(enc), 0) == nil, "Decode accepts what Encode wrote")
+	vAssert(spec.eq(m, m2), "decode(encode(m)) == m (fields, optional records, custom records)")
+	vAssert(bytes.Equal(extra0, spec.extra(m2)), "decode(encode(m)) == m (extension data)")
 }
 
 var _ = io.EOF
